@@ -138,7 +138,7 @@ package syncer
 // ---- abstract target: one batch of commands (C07 / C09 / C02) ---------------------------
 // Ghost view of the batch being built since the last NewBatcher:
 //   bLen     number of commands put          bFirst / bLast  first / last command name
-//   bCpPuts  number of resume-position writes (hset <key> <runid>_offset N)
+//   bCpPuts  number of resume-position writes (hset <key> <runid>_runid R <runid>_version V <runid>_offset N)
 //   bCp      the offset of the last such write,  bCpPos its position in the batch (1-based)
 //   tCpHigh  largest resume position handed to the target so far in this run
 // The C07 / C09 / C02 requirements are PRECONDITIONS of this abstract interface: a caller
@@ -147,7 +147,7 @@ package syncer
 
 //   cpArmed  1 between the evaluation of CheckpointInfo.OffsetKey() and the Put that uses it:
 //            that Put is the resume-position write (a business HSET k f v has the same shape)
-//@ pred isCpPut(cmd, args): cpArmed == 1 && cmd == "hset" && len(args) == 3 && hastype(args[2], "int64")
+//@ pred isCpPut(cmd, args): cpArmed == 1 && cmd == "hset" && len(args) == 7 && hastype(args[6], "int64")
 
 //@ func client.Redis.NewBatcher(self, pipeline) (b)
 //@   trusted abstract target
@@ -156,12 +156,12 @@ package syncer
 
 //@ func common.CmdBatcher.Put(self, cmd, args) (err)
 //@   trusted abstract target
-//@   requires cp_defined [C07]: isCpPut(cmd, args) ==> asint64(args[2]) >= 0
-//@   requires cp_monotone [C07]: isCpPut(cmd, args) ==> asint64(args[2]) >= tCpHigh
+//@   requires cp_defined [C07]: isCpPut(cmd, args) ==> asint64(args[6]) >= 0
+//@   requires cp_monotone [C07]: isCpPut(cmd, args) ==> asint64(args[6]) >= tCpHigh
 //@   modifies bLen, bFirst, bLast, bCpPuts, bCp, bCpPos, tCpHigh, cpArmed
 //@   ensures disarmed: cpArmed == 0
 //@   ensures counted: bLen == old(bLen) + 1 && bLast == cmd && (old(bLen) == 0 ==> bFirst == cmd) && (old(bLen) != 0 ==> bFirst == old(bFirst))
-//@   ensures cp: old(isCpPut(cmd, args)) ==> bCpPuts == old(bCpPuts) + 1 && bCp == asint64(args[2]) && bCpPos == bLen && tCpHigh == asint64(args[2])
+//@   ensures cp: old(isCpPut(cmd, args)) ==> bCpPuts == old(bCpPuts) + 1 && bCp == asint64(args[6]) && bCpPos == bLen && tCpHigh == asint64(args[6])
 //@   ensures not_cp: !old(isCpPut(cmd, args)) ==> bCpPuts == old(bCpPuts) && bCp == old(bCp) && bCpPos == old(bCpPos) && tCpHigh == old(tCpHigh)
 
 //@ func common.CmdBatcher.Len(self) (n)
@@ -181,7 +181,7 @@ package syncer
 //@ func common.CmdBatcher.Receive(self) (replies, err)
 //@   trusted abstract target
 
-// ---- one flush: [multi] queued commands [hset runid/version] [hset offset] [exec] -------
+// ---- one flush: [multi] queued commands [hset runid version offset] [exec] ---------------
 
 //@ pred queueClean(q): forall i int :: 0 <= i && i < len(q) ==> q[i].Cmd != "multi" && q[i].Cmd != "exec"
 
